@@ -26,7 +26,8 @@ META = {
                   'sym_values).',
 }
 
-KINDS = [('list', False, 'list'), ('dict', False, 'dict'), ('dict', True, 'dictp'), ('obj', False, 'obj'), ('obj', True, 'objp')]
+KINDS = [('list', False, 'list'), ('list2', False, 'list2'), ('dict', False, 'dict'), ('dict', True, 'dictp'),
+         ('obj', False, 'obj'), ('obj', True, 'objp'), ('nest', False, 'nest')]
 
 
 def run(chk):
@@ -38,23 +39,24 @@ def run(chk):
                       'values are small ints / strs / None / lists of them; batches have two elements',
                       'a rejected batch may keep any of its valid elements (alts), as the statement allows']
   # 1. the model: TLC proves the invariant and the action property on the intended semantics
-  mc = ['C03_list.cfg', 'C03_obj.cfg', 'C03_objp.cfg', 'C03_dict.cfg', 'C03_dictp_2.cfg']
+  mc = ['C03_list.cfg', 'C03_list2_cov.cfg', 'C03_nest.cfg', 'C03_obj.cfg', 'C03_objp.cfg', 'C03_dict.cfg', 'C03_dictp_2.cfg']
   if thorough:
-    mc += ['C03_dictp.cfg', 'C03_list_deep.cfg', 'C03_dict_deep.cfg', 'C03_obj_deep.cfg']
+    mc += ['C03_dictp.cfg', 'C03_list2.cfg', 'C03_list_deep.cfg', 'C03_dict_deep.cfg', 'C03_obj_deep.cfg']
   for cfg in mc:
     typedtree.model_check(chk, cfg)
   # vacuity of the exhaustive runs: every action has transitions out of the initial states (depth-1 state graph)
   cov = {}
-  for cfg in ('C03_list_cov.cfg', 'C03_dict_cov.cfg', 'C03_obj_cov.cfg'):
+  for cfg in ('C03_list_cov.cfg', 'C03_dict_cov.cfg', 'C03_obj_cov.cfg', 'C03_nest_cov.cfg', 'C03_list2_cov.cfg'):
     for a, n in typedtree.action_counts(chk, cfg).items():
       cov[a] = cov.get(a, 0) + n
   chk.notes['model_action_coverage'] = dict(sorted(cov.items()))
   for a in ('DSet', 'DSetAttr', 'OSetAttr', 'DRebind1', 'ORebind1', 'DDel', 'DPop', 'DClear', 'DSetDefault', 'DUpdate',
             'DIor', 'DRebind2', 'ORebind2', 'LSet', 'LRebindSet', 'LRebindAppend', 'LRebindInsert', 'LRebind2', 'LDel',
-            'LPop', 'LRemove', 'LClear', 'LDelSlice', 'LSetSliceA', 'LAppend', 'LInsert', 'LExtendA', 'LIadd', 'LImul'):
+            'LPop', 'LRemove', 'LClear', 'LDelSlice', 'LSetSliceA', 'LAppend', 'LInsert', 'LExtendA', 'LIadd', 'LImul',
+            'LDelSliceX', 'LSetSliceX', 'NSetExtAttr', 'NSetExtRebind', 'NLeaf'):
     chk.require(cov.get(a, 0) > 0, f'vacuous: action {a} never taken in the exhaustive runs')
   # 2. replay
-  models = {k: typedtree.Model(k) for k in ('list', 'dict', 'obj')}
+  models = {k: typedtree.Model(k) for k in ('list', 'list2', 'dict', 'obj', 'nest')}
   hits = {}
 
   def add(h):
@@ -64,10 +66,10 @@ def run(chk):
   # 2a. TLC searches the size checks *as coded* for a violation of Conforms; the counter-example is replayed
   typedtree.mirror_search(chk, 'C03_mirror.cfg', 'list', False, hits, models['list'])
   # 2b. simulated behaviours; the second pass stays away from the two mechanisms with open findings
-  n1, d1, n2, d2 = (120, 15, 120, 30) if not thorough else (1000, 25, 1000, 40)
+  n1, d1, n2, d2 = (100, 15, 100, 30) if not thorough else (1000, 25, 1000, 40)
   for kind, partial, tag in KINDS:
     add(typedtree.replay_simulated(chk, kind, partial, f'C03_sim_{tag}.cfg', n1, d1, chk.seed, models[kind]))
-    if thorough or not partial:
+    if (thorough or not partial) and kind != 'list2':      # (the list2 configuration is an Avoid pass itself)
       add(typedtree.replay_simulated(chk, kind, partial, f'C03_sim_avoid_{tag}.cfg', n2, d2, chk.seed + 1, models[kind]))
   chk.notes['action_outcome_hits'] = dict(sorted(hits.items()))
   chk.require(hits.get('valid_write_rejected', 0) == 0,
@@ -75,7 +77,8 @@ def run(chk):
               f'(see valid_write_rejected in the evidence): TypedTree.tla no longer describes the code')
   names = ['DSet', 'DSetAttr', 'OSetAttr', 'Rebind1', 'DDel', 'DPop', 'DClear', 'DSetDefault', 'DUpdate', 'DIor', 'Rebind2',
            'LSet', 'LRebindSet', 'LRebindAppend', 'LRebindInsert', 'LRebind2', 'LDel', 'LPop', 'LRemove', 'LClear',
-           'LDelSlice', 'LSetSlice', 'LAppend', 'LInsert', 'LExtend', 'LIadd', 'LImul']
+           'LDelSlice', 'LSetSlice', 'LAppend', 'LInsert', 'LExtend', 'LIadd', 'LImul', 'LDelSliceX', 'LSetSliceX',
+           'NSetExtAttr', 'NSetExtRebind', 'NLeaf']
   for a in names:
     chk.require(hits.get(a + ':ok', 0) > 0, f'vacuous: no accepted {a} replayed')
     chk.require(hits.get(a + ':err', 0) > 0, f'vacuous: no rejected {a} replayed')
